@@ -70,11 +70,11 @@ def make_meta_text(fixture_key, nap, ns, shank_of=None, size_fields="complete",
         elif kk == "snsSaveChanSubset":
             v = f"0:{nap}"
         elif kk == "fileSizeBytes":
-            if size_fields == "none":
+            if size_fields in ("none", "time_only"):
                 continue
             v = str(cns * nc * 2)
         elif kk == "fileTimeSecs":
-            if size_fields == "none":
+            if size_fields in ("none", "size_only"):
                 continue
             v = _fmt_float(cns / fs_eff)
         elif kk == "imSampRate" and fs is not None:
@@ -93,9 +93,9 @@ def make_meta_text(fixture_key, nap, ns, shank_of=None, size_fields="complete",
             v = head + "".join(f"({a}:{b}:{c}:{d})" for a, b, c, d in ents)
         out.append(f"{k}={v}")
     if size_fields != "none":
-        if "fileSizeBytes" not in seen:
+        if "fileSizeBytes" not in seen and size_fields != "time_only":
             out.append(f"fileSizeBytes={cns * nc * 2}")
-        if "fileTimeSecs" not in seen:
+        if "fileTimeSecs" not in seen and size_fields != "size_only":
             out.append(f"fileTimeSecs={_fmt_float(cns / fs_eff)}")
     return "\n".join(out) + "\n"
 
